@@ -8,6 +8,8 @@ from __future__ import annotations
 import asyncio
 import contextlib
 import datetime as _dt
+import os
+import time as _time
 import hashlib
 import io
 import warnings
@@ -36,7 +38,10 @@ class HttpxProxy:
 
 
 class FrozenClock:
-    """stands in for the name `datetime` inside s3c: utcnow() returns the scenario's timestamps in turn"""
+    """The instant the adapter sees, whatever clock it asks: stands in for the name `datetime` AND the name `time` inside s3c.
+    The scenario's timestamps (UTC) are handed out in turn, one per clock reading (time passes between two readings).
+    Local-time readings (datetime.now(), time.localtime(), time.strftime without a tuple) are answered for the process time
+    zone, which the scenario sets (TZ + tzset), so that code mixing UTC and local time meets days on which the two dates differ."""
 
     def __init__(self, stamps):
         self.stamps = [tuple(t) for t in stamps]
@@ -47,11 +52,69 @@ class FrozenClock:
         self.n += 1
         return t
 
+    def _epoch(self):
+        import calendar
+        return calendar.timegm(self._next() + (0, 0, 0))
+
+    # ---- datetime.datetime
     def utcnow(self):
         return _dt.datetime(*self._next())
 
-    def now(self, tz=None):   # in case the source moves to datetime.now(timezone.utc)
-        return _dt.datetime(*self._next(), tzinfo=tz)
+    def now(self, tz=None):
+        y = _dt.datetime(*self._next(), tzinfo=_dt.timezone.utc)
+        if tz is not None:
+            return y.astimezone(tz)
+        return _dt.datetime(*_time.localtime(y.timestamp())[:6])       # naive local time of the process time zone
+
+    def __getattr__(self, name):
+        # anything else of the two modules (timezone, timedelta, sleep, monotonic, ...) is the real thing
+        for mod in (_dt.datetime, _dt, _time):
+            if hasattr(mod, name):
+                return getattr(mod, name)
+        raise AttributeError(name)
+
+    datetime = property(lambda self: self)       # `import datetime; datetime.datetime.utcnow()`
+
+    # ---- time
+    def time(self):
+        return float(self._epoch())
+
+    def time_ns(self):
+        return self._epoch() * 10 ** 9
+
+    def gmtime(self, secs=None):
+        return _time.gmtime(self._epoch() if secs is None else secs)
+
+    def localtime(self, secs=None):
+        return _time.localtime(self._epoch() if secs is None else secs)
+
+    def strftime(self, fmt, t=None):
+        return _time.strftime(fmt, self.localtime() if t is None else t)
+
+    def asctime(self, t=None):
+        return _time.asctime(self.localtime() if t is None else t)
+
+    def ctime(self, secs=None):
+        return _time.ctime(self._epoch() if secs is None else secs)
+
+
+@contextlib.contextmanager
+def process_time_zone(tz):
+    """run with the process time zone set to the POSIX TZ string [tz] (None: leave it alone); restored afterwards"""
+    if tz is None:
+        yield
+        return
+    old = os.environ.get('TZ')
+    os.environ['TZ'] = tz
+    _time.tzset()
+    try:
+        yield
+    finally:
+        if old is None:
+            os.environ.pop('TZ', None)
+        else:
+            os.environ['TZ'] = old
+        _time.tzset()
 
 
 def stamp_text(t):
@@ -141,7 +204,9 @@ def instrumented(fake, clock):
     """patch names inside replicat.backends.s3c (transport, clock, spies on the hash helpers) and replicat.utils.time"""
     import replicat.backends.s3c as s3c
     import replicat.utils as U
-    saved = (s3c.httpx, s3c.datetime, s3c._get_data_hexdigest, s3c._hmac_sha256_digest, U.time,
+    _missing = object()
+    saved_clock_names = {name: getattr(s3c, name, _missing) for name in ('datetime', 'time')}
+    saved = (s3c.httpx, s3c._get_data_hexdigest, s3c._hmac_sha256_digest, U.time,
              s3c.S3Compatible._prepare_request)
     orig_hex, orig_hmac, orig_prepare = s3c._get_data_hexdigest, s3c._hmac_sha256_digest, s3c.S3Compatible._prepare_request
     last = {}
@@ -163,7 +228,9 @@ def instrumented(fake, clock):
         return req
 
     s3c.httpx = HttpxProxy(httpx.MockTransport(fake.handler))
-    s3c.datetime = clock
+    for name, old in saved_clock_names.items():     # whichever clock module the adapter imported: it sees the scenario's instant
+        if old is not _missing:
+            setattr(s3c, name, clock)
     s3c._get_data_hexdigest = hex_spy
     s3c._hmac_sha256_digest = hmac_spy
     s3c.S3Compatible._prepare_request = prepare_spy
@@ -185,8 +252,11 @@ def instrumented(fake, clock):
         yield s3c
     finally:
         _ba.asyncio = saved_ba
-        (s3c.httpx, s3c.datetime, s3c._get_data_hexdigest, s3c._hmac_sha256_digest, U.time,
+        (s3c.httpx, s3c._get_data_hexdigest, s3c._hmac_sha256_digest, U.time,
          s3c.S3Compatible._prepare_request) = saved
+        for name, old in saved_clock_names.items():
+            if old is not _missing:
+                setattr(s3c, name, old)
 
 
 def wrap_stream(data, kind):
@@ -262,7 +332,8 @@ def check_scenario(sc, rep, model_queue=None):
     with warnings.catch_warnings():
         warnings.simplefilter('ignore', DeprecationWarning)
         try:
-            asyncio.run(run_ops(sc, fake, clock))
+            with process_time_zone(sc.get('tz')):
+                asyncio.run(run_ops(sc, fake, clock))
         except Exception as e:     # the adapter itself failed: not this property's business unless nothing was sent
             rep.count('adapter-exception:' + type(e).__name__)
             rep.notes.append(f'adapter raised {type(e).__name__}: {str(e)[:120]}') if len(rep.notes) < 5 else None
@@ -297,7 +368,7 @@ def check_scenario(sc, rep, model_queue=None):
             if kind == 'signature-mismatch' and op[0] != 'list_files' and has_dot_segment(name):
                 kind = 'dot_segment'
             rep.violations.append({
-                'what': (f'{op[0]}({name!r}) sent {rec["method"].decode()} {rec["target"].decode("latin-1")} to {rec["netloc"]} (endpoint {host}, time {stamp}'
+                'what': (f'{op[0]}({name!r}) sent {rec["method"].decode()} {rec["target"].decode("latin-1")} to {rec["netloc"]} (endpoint {host}, time {stamp}' + (f', process time zone TZ={sc["tz"]}' if sc.get('tz') else '')
                          + (', request produced by the HTTP client itself after the service answered with a redirect' if rec.get('unprepared') else '')
                          + f'): an independent SigV4 verifier working from the wire bytes rejects it: {reason}'),
                 'signature': {'kind': kind, 'op': op[0]},
@@ -435,6 +506,10 @@ def gen_scenario(rng, nops=6):
     sc = {'cfg': gen_cfg(rng), 'ops': ops, 'stamps': gen_stamps(rng, 8 * len(ops) + 16)}
     if rng.random() < 0.3:
         sc['put_faults'] = rng.choice([1, 2, 3])      # transient 503s on PUT: every retry must again declare what it sends
+    if rng.random() < 0.4:
+        # the process runs in a time zone whose calendar date differs from the UTC date for part of every day (far west: the
+        # previous day until 08:00-12:00 UTC; far east: the next day from 10:00-15:00 UTC on): SigV4 dates are UTC dates
+        sc['tz'] = rng.choice(['UTC+12', 'UTC-14', 'PST8PDT', 'JST-9', 'UTC+12', 'UTC-14', 'IST-5:30', 'NST3:30'])
     if rng.random() < 0.3:
         # the service answers some requests with a redirect (bucket in another region, gateway moving a path): whatever reaches
         # the wire afterwards - for any host - must again be a correctly signed request
